@@ -219,6 +219,25 @@ theorem qunit_fix (hS : P.Sqrt) (q : Vec 4 R) (hq : qnormsq q = 1) : Gen.qunit P
   simp only [this, if_false, div_one]
   congr 1; apply Vec.ext4 <;> simp
 
+/-- trnorm on a 4×4 matrix normalises the rotation block exactly as on the 3×3 matrix, keeps the translation and sets the last row -/
+theorem trnorm_T_value (T M : Mat 4 4 R) (h : Gen.trnorm_T P T = .ok M) :
+    ∃ Rn, Gen.trnorm_R P (rotOf3 T) = .ok Rn ∧ M = rt3 Rn (trOf3 T) := by
+  unfold Gen.trnorm_T at h; unfold Gen.trnorm_R; simp only [rotOf3, trOf3, v3_0, v3_1, v3_2] at *
+  split_ifs at h with h1 h2 h3 <;> cases h
+  simp only [h1, h2, h3, if_true]
+  refine ⟨_, rfl, ?_⟩
+  ext_lit <;> simp [rt3]
+
+/-- the result is a rigid motion: rotation block in SO(3), last row (0 0 0 1), translation unchanged -/
+theorem trnorm_T_mem (hS : P.Sqrt) (T M : Mat 4 4 R) (h : Gen.trnorm_T P T = .ok M) :
+    IsSO3 (rotOf3 M) ∧ trOf3 M = trOf3 T ∧ M 3 0 = 0 ∧ M 3 1 = 0 ∧ M 3 2 = 0 ∧ M 3 3 = 1 := by
+  obtain ⟨Rn, hR, rfl⟩ := trnorm_T_value P T M h
+  have hm := trnorm_R_mem P hS _ Rn hR
+  refine ⟨?_, ?_, by simp [rt3], by simp [rt3], by simp [rt3], by simp [rt3]⟩
+  · have : rotOf3 (rt3 Rn (trOf3 T)) = Rn := by ext_lit <;> simp [rotOf3, rt3]
+    rw [this]; exact hm
+  · apply Vec.ext3 <;> simp [trOf3, rt3]
+
 /-! ### unit twists: unit rotational part, or unit translational part when irrotational -/
 
 theorem unittwist_cases (hS : P.Sqrt) (S U : Vec 6 R) (h : Gen.unittwist P S = .ok U) :
